@@ -58,7 +58,7 @@ def ints(lo, hi):
 # kinds.  every entry: gen(draw, depth, last) -> desc
 # -------------------------------------------------------------------------------------------------
 LEAF_KINDS = ["prim", "f32", "f64", "bytes_fixed", "byte_array", "str", "str_fixed", "cstr", "bytes_term", "uuid", "int_enum",
-              "int_flag", "bitfield", "bool", "expr", "quant", "vec3", "quant_vec", "fixed_point", "string_enum"]
+              "int_flag", "bitfield", "bool", "expr", "quant", "vec3", "quant_vec", "fixed_point", "string_enum", "ctx_adapter"]
 WINDOW_LEAF_KINDS = ["bytes_greedy"]
 NODE_KINDS = ["tuple", "template", "collection_prefixed", "collection_fixed", "optional_prefixed", "enum_switch", "flag_switch",
               "typed_byte_array", "typed_bytes_fixed", "dataclass", "dict_adapter", "ctx_template", "flagged_template", "bitfield_dc"]
@@ -208,7 +208,7 @@ def _fixed_size(d):
         return 16
     if k in ("bool",):
         return 1
-    if k == "expr":
+    if k in ("expr", "ctx_adapter"):
         return 2
     if k == "vec3":
         return 12
@@ -297,6 +297,12 @@ def build(d):
         return se.ExprAdapter(se.U16, decode_func=lambda x: x + 1000, encode_func=lambda x: x - 1000)
     if k == "string_enum":
         return se.StringEnumAdapter(SE1, se.CStr())
+    if k == "ctx_adapter":
+        # one wire byte whose meaning is chosen by a sibling field (the ObjectUpdate State pattern)
+        return se.Template({
+            "kind": se.U8,
+            "body": se.ContextAdapter(lambda ctx: ctx.kind, se.U8, {0: se.IntEnum(E1), 1: se.IntFlag(F1), se.MISSING: se.IdentityAdapter()}),
+        })
     if k == "quant":
         return se.QuantizedFloat(PRIMS[d["p"]], d["lo"], d["hi"])
     if k == "vec3":
@@ -416,6 +422,8 @@ def values(d):
         return st.integers(1000, 1000 + 0xFFFF)
     if k == "string_enum":
         return st.sampled_from(["foo", "bar baz"])
+    if k == "ctx_adapter":
+        return st.tuples(st.integers(0, 2), st.one_of(st.integers(0, 255), st.sampled_from([0, 1, 5, 255, 3, 0x8B]))).map(list)
     if k == "quant":
         return ints(*prim_range(d["p"]))          # the raw value; the float is derived from it
     if k == "vec3":
@@ -477,6 +485,15 @@ def rich(d, v, spec=None, pod=False, reading=False):
         return dtypes.flags_to_pod(F1, v) if pod else F1(v)
     if k == "string_enum":
         return v if pod else SE1(v)
+    if k == "ctx_adapter":
+        kind, raw = v
+        if kind == 0:
+            body = (E1(raw).name if pod else E1(raw)) if raw in [int(m) for m in E1] else raw
+        elif kind == 1:
+            body = dtypes.flags_to_pod(F1, raw) if pod else F1(raw)
+        else:
+            body = raw
+        return {"kind": kind, "body": body}
     if k == "bitfield":
         return _bitfield_vals(d, v)
     if k == "bitfield_dc":
